@@ -10,6 +10,11 @@ CONSTANTS
   Bug_PublishEarly = FALSE
   Bug_NoNotify = FALSE
   Bug_SnapshotUnlocked = FALSE
-INVARIANTS Linearizable BatchAtomic SeqSane
+  MaxFaults = 0
+  AnyPrefix = TRUE
+  Bug_FollowersToldOk = FALSE
+  Bug_RejectedFollowerDone = FALSE
+  Bug_FailedRoomStaysQueued = FALSE
+INVARIANTS Linearizable BatchAtomic SeqSane OwnResult StickyError
 PROPERTIES AllWritersReturn BgQuiesces
 CHECK_DEADLOCK FALSE
